@@ -39,6 +39,19 @@ def effective_policy(cmds):
     return p
 
 
+def effective_policy_late(cmds):
+    """Go's field semantics when a command may assign ErrorHandling AFTER declaring its sub-commands: Command() copies the
+    parent's field as it is at that moment"""
+    field = 1                       # App() starts with ExitOnError
+    own = 1
+    for c in cmds:
+        # field = what this command's ErrorHandling holds when it is created
+        own = c["policy"] if c.get("policy") is not None else field
+        # what its sub-commands will copy
+        field = c["policy"] if (c.get("policy") is not None and not c.get("policy_late")) else field
+    return own
+
+
 def tree_invocation(ctx, depth, fanout, reject_prob=0.3, conv=False, simple_hooks=True):
     """a random tree, a random path in it, per-level argv; returns (root, path aliases, per-level argv, levels)"""
     rng = ctx.rng
@@ -129,8 +142,19 @@ def check_C04(ctx):
         for c in cmds:
             c["before"], c["after"] = {"k": "ret"}, {"k": "ret"}
         argv = flat_argv(path, per_level)
+        # the application may declare a version flag whose name a sub-command uses for an option of its own: only as the
+        # FIRST argument is it a version request
+        version = None
+        if len(cmds) > 1 and rng.random() < 0.5:
+            rootnames = set(n for d in root["decls"] if d["t"] == "opt" for n in d["name"].split())
+            deeper = [n for c in cmds[1:] for d in c["decls"] if d["t"] == "opt" for n in d["name"].split() if n not in rootnames]
+            vn = rng.choice(deeper) if deeper and rng.random() < 0.8 else "V"
+            if vn not in rootnames and "version" not in rootnames:
+                version = {"name": vn + " version", "text": "ver 1", "last": rng.random() < 0.5}
+                if argv and argv[0] in gen.opt_names({"name": version["name"]}):
+                    version = None
         invs.append((root, path, per_level, cmds, {}))
-        cases.append({"op": "run", "env": {}, "version": None, "root": root, "argv": argv})
+        cases.append({"op": "run", "env": {}, "version": version, "root": root, "argv": argv})
     res = correspond(ctx, cases, ["outcome", "trace", "values", "sbu"], "trees x paths x per-level command lines")
     verdicts = level_verdicts(ctx, invs)
     # standalone runs of every level, to compare the bindings level by level
@@ -295,6 +319,44 @@ def check_C07(ctx):
             ctx.violation("policy", "argv %r holds a value that does not convert (policy %d) but the invocation ended %r with trace %r and error line %r"
                           % (c["argv"], c["_pol"], a["outcome"], a["trace"], a["stderr"][:1]), case=c)
     ctx.stream("unconvertible value in every position", len(bad_cases))
+    # a command may set its policy after declaring its sub-commands, which then do not inherit it (Command() copies the field
+    # when the sub-command is created). The model has no notion of "late": judged by the property's oracle only.
+    late = []
+    for _ in range(ctx.scale(1200, 12000)):
+        root, path, per_level, cmds = tree_invocation(ctx, rng.randint(1, 3), 3, reject_prob=0.6)
+        for c in cmds:
+            if rng.random() < 0.6:
+                c["policy"] = rng.choice([0, 1, 2])
+                c["policy_late"] = rng.random() < 0.5
+            c["before"], c["after"] = {"k": "ret"}, {"k": "ret"}
+        if not any(c.get("policy_late") for c in cmds):
+            continue
+        late.append(({"op": "run", "env": {}, "version": None, "root": root, "argv": flat_argv(path, per_level)}, cmds))
+    number([c for c, _ in late], start=len(cases) + len(bad_cases) + 200000)
+    lres = core.run_impl([c for c, _ in late])
+    nl = 0
+    for c, cmds in late:
+        ctx.count(c)
+        a = core.obs_impl(lres[c["id"]])
+        if not rejected(a):
+            continue
+        ul = [l for l in a["stderr"] if l.startswith("Usage: ")]
+        owner = None
+        for j in range(len(cmds), 0, -1):
+            up = "Usage: " + usage_path(cmds[:j])
+            if ul and (ul[0] == up or ul[0].startswith(up + " ")):
+                owner = j - 1
+                break
+        if owner is None:
+            continue
+        nl += 1
+        pol = effective_policy_late(cmds[:owner + 1])
+        want = {0: ("ret",), 1: ("exit", 2), 2: ("panic",)}[pol]
+        if a["outcome"][:len(want)] != want or a["trace"]:
+            ctx.violation("policy", "command %r (policies %r along the path, late assignments %r) rejected %r: policy %d expected, the end is %r, trace %r"
+                          % (usage_path(cmds[:owner + 1]), [x.get("policy") for x in cmds[:owner + 1]],
+                             [bool(x.get("policy_late")) for x in cmds[:owner + 1]], c["argv"], pol, a["outcome"], a["trace"]), case=c)
+    ctx.stream("policies assigned after the sub-commands were declared", len(late), rejections=nl)
     # Q7 (modelled, outside the property's three-way split): the addressed command has no Action; its help is
     # printed, nothing runs, and the policy is applied to a nil error. Compared with the model only.
     q7 = []
@@ -594,6 +656,54 @@ def check_C06(ctx, prop="C06"):
             if not accepted(a) or a["values"].get(c["_other"]) != c["_dflt"] or a["values"].get("app|i inc") != c["_vals"]:
                 ctx.violation("precedence", "two multi-valued parameters with the same default slice %r, one given %r: values %r"
                               % (c["_dflt"], c["_vals"], a["values"]), case=c)
+    # SetByUser inside option groups: flags that the line does not give (a malformed cluster names them but is bound as a
+    # positional after a spec-level "--"; a sibling is backed by the environment), for every member of the group
+    if prop == "C15":
+        gd = [gen.mkopt("bool", "a", sbu=True, **{"def": ["false"]}), gen.mkopt("bool", "b", env="VE_B", sbu=True, **{"def": ["false"]}),
+              gen.mkopt("strings", "o", sbu=True), gen.mkarg("strings", "ARG", sbu=True)]
+        gtoks = [["-a"], ["-b"], ["-ab"], ["-a-x"], ["-b-"], ["-a-b"], ["x"], ["--"], ["-o", "v"], ["-ba-"], ["-ao-"]]
+        grp = []
+        for sp in ("[-ab] -- ARG...", "[OPTIONS] -- ARG...", "-ab -- [ARG...]", "[-ab] [ARG...]", "[-abo] -- ARG...", "[-a] [-b] -- ARG...", "(-ab)... -- ARG..."):
+            for n in (1, 2, 3):
+                for ps in itertools.product(gtoks, repeat=n):
+                    for env in ({}, {"VE_B": "true"}):
+                        grp.append({"op": "run", "env": env, "version": None, "root": gen.mkcmd("app", decls=copy.deepcopy(gd), spec=sp, policy=0),
+                                    "argv": [t for p_ in ps for t in p_]})
+        if len(grp) > ctx.scale(8000, 80000):
+            grp = ctx.rng.sample(grp, ctx.scale(8000, 80000))
+        number(grp, start=len(cases) + 100000)
+        gres = correspond(ctx, grp, ["outcome", "trace", "values", "sbu"], "SetByUser inside option groups")
+        nacc = 0
+        for c in grp:
+            a, _ = gres[c["id"]]
+            if not accepted(a):
+                continue
+            nacc += 1
+            # a flag that is set by the user holds true (or was written with an explicit value); one that is not keeps what the
+            # declaration gave it
+            for d in gd[:2]:
+                key = "app|" + d["name"]
+                want = ["true"] if (d.get("env") and c["env"]) else ["false"]
+                if a["sbu"].get(key) is False and a["values"].get(key) != want:
+                    ctx.violation("setbyuser", "spec %r argv %r env %r: %s is not set by the user, yet holds %r instead of %r"
+                                  % (c["root"]["spec"], c["argv"], c["env"], d["name"], a["values"].get(key), want), case=c)
+        # accounting: a token bound verbatim to the argument is not also an occurrence of an option; the options flagged as
+        # set by the user must be named by the remaining dash tokens
+        for c in grp:
+            a, _ = gres[c["id"]]
+            if not accepted(a):
+                continue
+            rest = list(c["argv"])
+            for v in a["values"].get("app|ARG", []) if a["sbu"].get("app|ARG") else []:
+                if v in rest:
+                    rest.remove(v)
+            letters = set(ch for t in rest if t.startswith("-") and not t.startswith("--") for ch in t[1:])
+            for d in gd[:3]:
+                key = "app|" + d["name"]
+                if a["sbu"].get(key) and d["name"] not in letters:
+                    ctx.violation("setbyuser", "spec %r argv %r env %r: %s is flagged as set by the user, but once the tokens bound to ARG (%r) are "
+                                  "set aside no token of the line names it" % (c["root"]["spec"], c["argv"], c["env"], d["name"], a["values"].get("app|ARG")), case=c)
+        ctx.stream("SetByUser inside option groups", 0, accepted=nacc)
     ctx.stream("kinds x opt/arg x defaults x env lists x cli counts", 0, k1_shape=k1)
     ctx.sample({"kind": "ints", "default": ["4", "5"], "env": {"VE0": "", "VE1": "7, 8"}, "argv": [], "expected": ["7", "8"]})
     return ("7 built-in kinds x option/argument x 2 defaults x environment lists of length 0-3 over {unset, empty, valid, "
